@@ -1,7 +1,7 @@
 (* statement pins and axiom audit for C12 (compiled on every check) *)
 From ChiaV.Base Require Import Bytes Sha256.
 From ChiaV.Gen Require Import Mset.
-From ChiaV.Merkle Require Import MerkleSpec MerkleSet MerkleTree.
+From ChiaV.Merkle Require Import MerkleSpec MerkleSet MerkleTree MerkleProofSpec MerkleExamples.
 From ChiaV.Props Require Import C12.
 Open Scope N_scope.
 
@@ -19,3 +19,20 @@ Print Assumptions C12_root_of_set.
 Check C12_tree_root_agrees : forall (H : bytes -> bytes) l, Forall leaf32 l ->
   exists t, from_leafs H l = Ok t /\ get_root H t = compute_merkle_set_root H l.
 Print Assumptions C12_tree_root_agrees.
+Check C12_proof_sound : forall (H : bytes -> bytes), (forall m, length (H m) = 32%nat) ->
+  forall S x proof root b, Forall leaf32 S -> leaf32 x ->
+  compute_merkle_set_root H S = Ok root ->
+  validate_merkle_proof H proof x root = Ok b ->
+  b = mem x S \/ collision H \/ zero_preimage H.
+Print Assumptions C12_proof_sound.
+Check C12_sha256_digest_length : forall m, length (sha256 m) = 32%nat.
+Print Assumptions C12_sha256_digest_length.
+Check C12_proof_complete : forall (H : bytes -> bytes), (forall m, length (H m) = 32%nat) ->
+  forall S x, Forall leaf32 S -> leaf32 x ->
+  exists t p root, from_leafs H S = Ok t /\ generate_proof t x = Ok (mem x S, p) /\
+    compute_merkle_set_root H S = Ok root /\ validate_merkle_proof H p x root = Ok (mem x S).
+Print Assumptions C12_proof_complete.
+Check C12_example_member : ex_run ex_a = Some (true, true).
+Print Assumptions C12_example_member.
+Check C12_example_non_member : ex_run ex_x = Some (false, false).
+Print Assumptions C12_example_non_member.
